@@ -80,6 +80,31 @@ def _simple(e, depth=0):
     return False
 
 
+def _named_fn(e):
+    """`z3name!k(i)`: the functions the nnf tactic introduces for if-then-else terms under a quantifier behave like array reads"""
+    return (z3.is_app(e) and e.num_args() == 1 and e.decl().kind() == z3.Z3_OP_UNINTERPRETED and e.decl().name().startswith("z3name!")
+            and e.arg(0).sort().kind() == z3.Z3_INT_SORT)
+
+
+def _vars_in(e, acc=None):
+    acc = {} if acc is None else acc
+    if z3.is_var(e):
+        acc[z3.get_var_index(e)] = e
+    elif z3.is_app(e):
+        for c in e.children():
+            _vars_in(c, acc)
+    return acc
+
+
+def _size(e, cap=40):
+    n, todo = 0, [e]
+    while todo and n <= cap:
+        x = todo.pop()
+        n += 1
+        todo.extend(x.children())
+    return n
+
+
 def _flat_array(a, depth=0):
     if not z3.is_app(a) or depth > 3:
         return False
@@ -106,6 +131,10 @@ class Instantiator:
         self.instances = {}      # key -> formula
         self.n_inst = 0
         self.offsets = False
+        self.shift_all = False
+        self.round = 0
+        self.gen = {}            # index term id -> round in which it first appeared as a read index
+        self.shift_gen = 1
         self.base_terms = set()
         self.truncated = False
 
@@ -125,6 +154,9 @@ class Instantiator:
                 self.reads.setdefault(rb, {}).update(self.reads.pop(ra))
 
     # ---- ground read collection
+    def note(self, t):
+        self.gen.setdefault(t.get_id(), self.round)
+
     def scan(self, e):
         k = e.get_id()
         if k in self.visited:
@@ -150,9 +182,14 @@ class Instantiator:
                     if not self.ctx.has_var(r):
                         key = self.find(r)
                         self.reads.setdefault(key, {}).setdefault(t.get_id(), t)
+                        self.note(t)
                         for j in idx:
                             if not self.ctx.has_var(j):
                                 self.reads[key].setdefault(j.get_id(), j)
+        elif _named_fn(e) and not self.ctx.has_var(e.arg(0)):
+            t = e.arg(0)
+            self.reads.setdefault("f:" + e.decl().name(), {}).setdefault(t.get_id(), t)
+            self.note(t)
         elif d == z3.Z3_OP_STORE:
             roots, idx = _roots(e)
             for r in roots:
@@ -170,6 +207,7 @@ class Instantiator:
         n = q.num_vars()
         arrays = [dict() for _ in range(n)]   # var index (de Bruijn) -> root arrays read at that var
         extra = [dict() for _ in range(n)]
+        shifted = [list() for _ in range(n)]  # (root keys, ground offset g) for reads `a[var + g]` (offsets mode only)
         seen = set()
 
         def visit(e, depth):
@@ -180,6 +218,10 @@ class Instantiator:
                 visit(e.body(), depth + e.num_vars())
                 return
             if z3.is_app(e):
+                if _named_fn(e) and z3.is_var(e.arg(0)):
+                    vi = z3.get_var_index(e.arg(0)) - depth
+                    if 0 <= vi < n:
+                        arrays[vi]["f:" + e.decl().name()] = e
                 if e.decl().kind() == z3.Z3_OP_SELECT and z3.is_var(e.arg(1)):
                     vi = z3.get_var_index(e.arg(1)) - depth
                     if 0 <= vi < n:
@@ -190,6 +232,18 @@ class Instantiator:
                         for j in idx:
                             if not self.ctx.has_var(j):
                                 extra[vi][j.get_id()] = j
+                if self.offsets and e.decl().kind() == z3.Z3_OP_SELECT and not z3.is_var(e.arg(1)) and self.ctx.has_var(e.arg(1)) and depth == 0:
+                    idx = e.arg(1)
+                    vs = _vars_in(idx)
+                    if len(vs) == 1 and idx.sort().kind() == z3.Z3_INT_SORT and next(iter(vs.values())).sort().kind() == z3.Z3_INT_SORT:
+                        var = next(iter(vs.values()))
+                        vi = z3.get_var_index(var) - depth
+                        g = z3.simplify(idx - var)
+                        if 0 <= vi < n and not self.ctx.has_var(g):
+                            roots, _ = _roots(e.arg(0))
+                            keys = [self.find(r) for r in roots if not self.ctx.has_var(r)]
+                            if keys:
+                                shifted[vi].append((keys, g))
                 for c in e.children():
                     visit(c, depth)
         visit(q.body(), 0)
@@ -219,6 +273,15 @@ class Instantiator:
                     for k, t in d.items():
                         if not self.base_terms or k in self.base_terms:
                             pool[k] = t
+            if self.offsets and sort.kind() == z3.Z3_INT_SORT:
+                # reads `a[var + g]`: the variable matches t - g for the indices t at which `a` is read
+                for keys, g in shifted[vi]:
+                    for rid in keys:
+                        for t in list(self.reads.get(rid, {}).values()):
+                            if _size(t) <= 14 and (self.shift_all or self.gen.get(t.get_id(), 99) <= self.shift_gen):
+                                u = z3.simplify(t - g)
+                                if _size(u) <= 18:
+                                    pool.setdefault(u.get_id(), u)
             pools.append(pool)
         return pools          # index by de Bruijn var index
 
@@ -264,6 +327,7 @@ class Instantiator:
         t0 = _t.time()
         while rounds < MAX_ROUNDS:
             rounds += 1
+            self.round = rounds
             result = [z3.simplify(self.inst(q, (qi,))) for qi, q in enumerate(self.quant)]
             if _t.time() - t0 > TIME_BUDGET_S:
                 self.truncated = True       # keep what we have: a subset of the instances is still sound
@@ -275,12 +339,12 @@ class Instantiator:
                 break
             last = total
         return self.ground + result, {"quantified": len(self.quant), "instances": self.n_inst, "rounds": rounds,
-                                      "index_terms": last}
+                                      "index_terms": last, "truncated": self.truncated or rounds >= MAX_ROUNDS}
 
 
 def to_qf(assertions, offsets=False):
     it = Instantiator(assertions)
     it.offsets = offsets
     if not it.quant:
-        return it.ground, {"quantified": 0, "instances": 0, "rounds": 0, "index_terms": 0}
+        return it.ground, {"quantified": 0, "instances": 0, "rounds": 0, "index_terms": 0, "truncated": False}
     return it.run()
